@@ -354,6 +354,8 @@ def check_case(res, case, sr, model_ok):
     res.traces_validated += ranks
     res.count(kind)
     res.count("pending" if not (case["flags"] & 2) else "barrier-first")
+    res.count("routing=%s" % case.get("routing", "NONE"))
+    res.count("comm-buffer-kb=%s" % case.get("buffer_kb"))
     res.count("target-prepopulated" if case["flags"] & 1 else "target-empty")
     for f in feats:
         res.count(f)
